@@ -195,8 +195,8 @@ def run(ctx):
     rejected_lines = set()
     order = sorted(rej, key=lambda r: (len(json.dumps(events[r["line"] - 1])), r["line"]))   # smallest scenario first
     # A rejected scripted scenario is executed once more on its own before it counts: the verdict has to be a
-    # reproducible behaviour of the real code (one 'unexpected EOF' on a well-formed archive was seen once in
-    # 5,800 scenarios on a heavily loaded machine and never again).
+    # reproducible behaviour of the real code.  (Introduced when one 'unexpected EOF' on a well-formed archive
+    # looked like a load artefact; it reproduced and turned out to be finding C15-F3.)
     unconfirmed = set()
     local = {}
     cnt = {}
